@@ -439,8 +439,14 @@ public:
       {
         T d1 = TextTools::fromString<T>(token.substr(0, pos));
         T d2 = TextTools::fromString<T>(token.substr(pos + 1));
+        // A range is short to write and long to enumerate ("1-2000000000"); with floating point
+        // bounds j++ may even leave j unchanged ("1e16-10000000000000100"). Nothing larger than
+        // this is built from a text (as in NumCalcApplicationTools::seqFromString).
+        const size_t maxDescribedSize = 10000000;
         for (T j = d1; j < d2; j++)
         {
+          if (v.size() >= maxDescribedSize)
+            throw Exception("ApplicationTools::getVectorParameter. Range of more than " + TextTools::toString(maxDescribedSize) + " values in parameter " + parameterName + ": " + token);
           v.push_back(j);
         }
         v.push_back(d2);
